@@ -150,14 +150,20 @@ def end_c40(ctx):
     b = f.thir.get(C40_END)
     need(b, r, C40_END)
     need(not any(n.get("k") == "Loop" for n in T.walk(b["body"])), r, C40_END, "(loop-free)")
-    pn = [p_["pat"]["name"] for p_ in b["params"] if p_.get("pat", {}).get("k") == "Bind"]
-    need(len(pn) == 3, r, C40_END, "(parameters ctx, last_ch, buf)")
+    binds = [p_["pat"] for p_ in b["params"] if p_.get("pat", {}).get("k") == "Bind"]
+    need(len(binds) == len(b["params"]) and len(binds) in (2, 3), r, C40_END, "(parameters ctx, [last_ch,] buf)")
+    # parameters by role: the context comes first, the pending values are the ArrayVec, the last character (if passed at all) the u8
+    p_ctx = binds[0]["name"]
+    p_buf = [x["name"] for x in binds[1:] if "ArrayVec" in str(x.get("ty", ""))]
+    p_last = [x["name"] for x in binds[1:] if str(x.get("ty", "")) == "u8"]
+    need(len(p_buf) == 1 and len(p_last) == len(binds) - 2, r, C40_END, "(parameters ctx, [last_ch,] buf)")
     LEN = 10
     obs = []
 
     def run(buf, last_ch, rest, caps):
         ev = []
         st = {"backed": 0}
+        rest = list(rest)
 
         def written():
             return LEN + sum(1 for e in ev if e[0] == "push")
@@ -202,13 +208,23 @@ def end_c40(ctx):
                 ev.append(("ascii-until-end",))
                 return None
             if last == "backup":
-                ev.append(("backup", folder.fold(c["args"][1])))
+                k = folder.fold(c["args"][1])
+                ev.append(("backup", k))
+                # the read cursor moves back: the character(s) consumed last are ahead again (only the last one is modelled)
+                if k == 1 and st["backed"] == 0:
+                    rest.insert(0, last_ch)
+                    st["backed"] = 1
+                elif k != 0:
+                    raise T.Undecidable("backup(%r) beyond the last character" % (k,))
                 return None
             if last == "push" and not (cc.startswith("arrayvec::") or "ArrayVec" in cc):
                 ev.append(("push", folder.fold(c["args"][1])))
                 return None
             return NotImplemented
-        fo = T.Folder(f, env={pn[0]: T.Token("ctx"), pn[1]: last_ch, pn[2]: list(buf)}, on_call=on_call, effects=True)
+        env = {p_ctx: T.Token("ctx"), p_buf[0]: list(buf)}
+        if p_last:
+            env[p_last[0]] = last_ch
+        fo = T.Folder(f, env=env, on_call=on_call, effects=True)
         res = fo.run(b["body"])
         kind = res.get("__variant__") if isinstance(res, dict) else None
         return ev, kind
